@@ -6,6 +6,7 @@
 from jaqalpaq.error import JaqalError
 from jaqalpaq.core.algorithm.visitor import Visitor
 from jaqalpaq.core import circuitbuilder
+from jaqalpaq.core.parameter import Parameter
 
 
 def fill_in_map(circuit):
@@ -94,6 +95,12 @@ class MapFiller(Visitor):
 
     def visit_NamedQubit(self, qubit):
         """Map this to a fundamental register and index and return it."""
+        if isinstance(qubit.alias_from, Parameter) or (
+            isinstance(qubit.alias_index, Parameter) and qubit.alias_from.fundamental
+        ):
+            # An index into a macro parameter, or a macro parameter as index
+            # into a fundamental register: no alias is involved.
+            return qubit
         reg, index = qubit.resolve_qubit()
         if reg.name in self.shadowing_names:
             # Written out in this macro, reg[index] would name the parameter.
